@@ -48,6 +48,9 @@ DEFINERS = [
     ("arith_second_rule", "p(G,V) :- extra(G,V). { p(G,V*2) } :- dp(G,V).", [["dp", 2], ["extra", 2]]),
     ("cond_second_rule", "{ c(G,Y) : dp(G,Y) }. p(G,V) :- extra(G,V). p(G,V) :- dp(G,V), c(G,Y) : blk(Y).",
      [["dp", 2], ["blk", 1], ["extra", 2]]),
+    ("same_name_arity", "{ p(X) : dp(X,_) }. { p(G,V) } :- dp(G,V).", [["dp", 2]]),
+    ("same_name_arity_rev", "{ p(G,V) } :- dp(G,V). { p(X) : dp(X,_) }. u1(X) :- p(X).", [["dp", 2]]),
+    ("same_name_derived", "{ p(X) : dp(X,_) }. { c(G,V) } :- dp(G,V). p(G,V) :- c(G,V), g(G).", [["dp", 2], ["g", 1]]),
     ("neg_second_rule", "{ on(G) } :- g(G). p(G,V) :- extra(G,V). { p(G,V) } :- dp(G,V), not on(G).",
      [["dp", 2], ["g", 1], ["extra", 2]]),
 ]
